@@ -47,6 +47,10 @@ THEOREMS = [
     'C10.sysobj_edit_model_fresh',
     # the object invariants assumed above are established by the setters
     'C10.cleanVects_idem', 'C10.cijSet_idem',
+    # counts: the array read back from a long value list is decided by all entries in any cut into blocks (integer
+    # blocks -> integer array of both; a non-integer anywhere in the tail -> not an integer array; numeric blocks ->
+    # float array of both; string blocks -> every string whole)
+    'C10.value_list_blocks_int', 'C10.value_list_tail_decides', 'C10.value_list_blocks_num', 'C10.value_list_blocks_str',
 ]
 PARTIAL = {
     'length-1 vector through XML text': "uc.value_unit alone reads a shape-(1,) array back from XML text as a "
@@ -139,7 +143,15 @@ RULE = ('seeded systems (1-7 atoms, 1-3 types, lower-triangular cells with every
         'uncertainty of exactly zero, masses= override with 0.0); symbols / masses / pbc handed over as lists, tuples, '
         'arrays, 0/1 integers; systems nested at different depths of a record (System(model=record), load(key=, index=)); '
         'elastic constants with negligible leftovers in the empty slots and a hair (1e-6 .. 1e-11 relative, 1e-7 of the '
-        'largest constant) off a higher symmetry')
+        'largest constant) off a higher symmetry. Round 4: LARGE cases in compact form - long values with 1023 .. 131073 '
+        'stored numbers (powers of two and round numbers, one below / at / one above; vectors, (n,3), (n,2), (3,n), (n,3,3), '
+        '(n,1); floats, running identifiers, 64-bit tags beyond 2^53 with the extremes of int64 at the ends, booleans, '
+        'strings; tail columns whose class shows only in the last quarter), in every search run one System of 2^15 + 1 '
+        'and one of 2^16 + 1 atoms (the tie: 20001 / 30001 / 20481 / 21846 atoms) with identifier / tag / integer (n,3) / '
+        'boolean / (n,1) columns and always one box-scaled column, through tree, JSON and XML; per-atom property names '
+        'taken from the methods, read-only attributes, constructor arguments, private slots and special names of Atoms / '
+        'System (50 names, created through atoms.view[name]), with the clause that what is read back hides no attribute '
+        'of its class behind an instance attribute')
 ASSUMPTIONS = [
     "the conversion factor of a unit string under a working-unit configuration is a scalar parameter fac(u) != 0 "
     "(uc.parse is property C09's subject; on every run the factors handed to the model are evaluated by the harness's "
@@ -493,8 +505,10 @@ def _fit_cfgs(case):
 # and round numbers, one below, at and one above
 COUNTS = [1023, 1025, 2049, 4095, 4096, 4097, 8193, 9999, 10001, 16383, 16385, 20000, 20001, 32767, 32769, 50001,
           65535, 65536, 65537, 100001, 131073]
-NATOMS_A = [20001, 20480, 21000, 21846, 32769]          # (21846 atoms: 65538 coordinates)
-NATOMS_B = [65537, 66000, 70000]
+# numbers of atoms: one above a power of two (n = k * block + 1 for every power-of-two block up to n - 1, and beyond
+# every threshold below it), one above a round number (the same for decimal blocks), in between
+NATOMS_A = [32769, 20001, 30001, 20481, 21846]      # (21846 atoms: 65538 coordinates)
+NATOMS_B = [65537, 70001, 66000]
 
 
 def _count_shape(rng, count):
@@ -525,7 +539,9 @@ def gen_uc(rng, count=None):
         arr = _gen_arr(rng, shape, trailing=[], dt=rng.choice('fiiiibbs'), via=via, scale=scale)
         if arr['form'] == 'narrow':
             arr['form'] = 'c'
-        if arr['dt'] == 'i' and arr.get('flavour') is None and rng.random() < 0.5:
+        if arr['dt'] in 'sif' and arr.get('flavour') in (None, 'integral') and rng.random() < 0.3:
+            arr = dict(_tail_column(rng, len(arr['data']), arr['dt']), shape=shape)
+        elif arr['dt'] == 'i' and arr.get('flavour') is None and rng.random() < 0.5:
             # identifiers: 1 .. n, or 64-bit tags beyond 2^53 (the extremes of int64 at the ends and in the middle)
             n = len(arr['data'])
             if rng.random() < 0.5:
@@ -552,6 +568,21 @@ def gen_uc(rng, count=None):
         if rng.random() < 0.2:
             case['err'] = [0.0 for _ in arr['data']]        # an uncertainty of exactly zero is a value, not "no error"
         case['err_form'] = rng.choice(FORMS[:-1])
+    if count is None:
+        # smallest sizes: EMPTY float arrays of rank 1-3 (an extent of 0 anywhere), through the tree and its JSON text
+        # (XML has no empty lists; an empty integer / string array is typed float by numpy: PARTIAL 'empty arrays').
+        # A generator of its own: the main stream stays what it was.
+        rx = random.Random('c10-empty %r' % ((case['arr']['data'][:4], case['w1'], case['via']),))
+        if rx.random() < 0.04:
+            shp = rx.choice([[0], [0], [0, 3], [2, 0], [0, 3, 3], [1, 0], [0, 1]])
+            # (a nested python list cannot say (0, 3): [] is what (0,) looks like too)
+            forms = ['c', 'fortran', 'readonly'] + (['list'] if shp[0] != 0 or len(shp) == 1 else [])
+            case['arr'] = {'dt': 'f', 'shape': shp, 'data': [], 'form': rx.choice(forms), 'flavour': 'empty'}
+            case['via'] = 'tree' if case['via'] == 'xml' else case['via']
+            case.pop('err', None)
+            case.pop('err_form', None)
+            if case['unit'] == 'scaled':
+                case['unit'] = None
     return case
 
 
@@ -600,8 +631,29 @@ def _big_columns(rng, natoms):
                  'data': [rng.random() < 0.5 for _ in range(natoms)], 'form': rng.choice(['c', 'list'])})
     cols.append({'name': 'nbonds', 'unit': None, 'dt': 'i', 'shape': [natoms, 1],
                  'data': [rng.randint(0, 12) for _ in range(natoms)], 'form': 'c'})
+    cols.append(dict(_tail_column(rng, natoms, rng.choice('sif')), name='site'))
     rng.shuffle(cols)
-    return cols[:rng.randint(2, 5)]
+    return cols[:rng.randint(2, 6)]
+
+
+def _tail_column(rng, n, dt):
+    """a long column whose class shows only late: a uniform head (short strings / small non-negative integers / whole
+    numbers) and, in the last quarter and at the very end, a longer string / a negative and a 41-bit integer / a
+    fraction - whatever is inferred from the head alone (string width, integer width, "these are integers") is wrong
+    for the tail."""
+    late = sorted({n - 1, n - 2 - rng.randrange(max(1, n // 4))} & set(range(n)))
+    if dt == 's':
+        data = [rng.choice(['a', 'bb', 'Fe']) for _ in range(n)]
+        odd = ['interstitial-site', 'a-much-longer-label-than-any-before']
+    elif dt == 'i':
+        data = [rng.randint(0, 9) for _ in range(n)]
+        odd = [-3, (1 << 40) + 5]
+    else:
+        data = [float(rng.randint(0, 9)) for _ in range(n)]
+        odd = [0.5, -1234567.890625]
+    for at, v in zip(late, odd):
+        data[at] = v
+    return {'unit': None, 'dt': dt, 'shape': [n], 'data': data, 'form': 'c', 'flavour': 'tail'}
 
 
 def _gen_props(rng, natoms, ntypes, via='tree', scale=0, box=None, big=False):
@@ -2521,6 +2573,15 @@ def expand_big(spec):
             case['props'] = keep
             if case.get('sel') is not None:
                 case['sel'] = [e for e in case['sel'] if e['name'] in names]
+    if spec['of'] == 'sys' and 'scaled' not in [q['unit'] for q in (case['sel'] if case.get('sel') is not None else case['props'])]:
+        # a large system always stores something box-scaled (the positions, if nothing else)
+        for q in case['props'] + (case.get('sel') or []):
+            if q['name'] == 'pos':
+                q['unit'] = 'scaled'
+        if case.get('sel') is not None and 'pos' not in [e['name'] for e in case['sel']]:
+            case['sel'].insert(0, {'name': 'pos', 'unit': 'scaled'})
+        if case['call'] in ('names', 'default'):
+            case['call'] = 'prop_unit'
     case['compact'] = dict(spec)
     return _fit_cfgs(case)
 
@@ -2530,13 +2591,16 @@ def _full(case):
 
 
 def _big_cases(rng, thorough, tie=False):
-    """the large cases of one run: long values around the COUNTS, one system of about 21 000 atoms and (search
-    only, not in the tie) one of about 70 000; more of each in the thorough tier."""
+    """the large cases of one run: long values around the COUNTS; systems of 2^15 + 1 and (search only, not in the
+    tie) 2^16 + 1 atoms; in the tie one of 20 001 / 30 001 atoms; more of each in the thorough tier."""
     k = 3 if thorough else 1
     out = [gen_big(rng, 'uc', c) for c in rng.sample(COUNTS, (3 if tie else 5) * k)]
-    out += [gen_big(rng, rng.choice(['sys', 'sys', 'atoms']), rng.choice(NATOMS_A)) for _ in range(k)]
+    if tie:
+        out += [gen_big(rng, rng.choice(['sys', 'sys', 'atoms']), n) for n in rng.sample(NATOMS_A[1:], k)]
+    else:
+        out += [gen_big(rng, 'sys', NATOMS_A[0])] + [gen_big(rng, rng.choice(['sys', 'atoms']), rng.choice(NATOMS_A)) for _ in range(k - 1)]
     if not tie or thorough:
-        out += [gen_big(rng, 'sys', rng.choice(NATOMS_B)) for _ in range(k)]
+        out += [gen_big(rng, 'sys', n) for n in NATOMS_B[:k]]
     return out
 
 
@@ -2752,7 +2816,9 @@ def _check_array(ctx, key, what, case, got, orig, ratio: Fraction, rtol, atol, k
     flat = got.flatten().tolist()
     if orig['dt'] == 's':
         if flat != list(orig['data']) or got.dtype.kind not in 'US':
-            ctx.violate(key + ':value', f'{what}: strings {flat[:4]} ({got.dtype}) read back, {orig["data"][:4]} written', rp)
+            at = next((i for i, (g, o) in enumerate(zip(flat, orig['data'])) if g != o), 0)
+            ctx.violate(key + ':value', f'{what}: strings {flat[at:at + 4]} ({got.dtype}) read back from element {at} on, '
+                        f'{orig["data"][at:at + 4]} written', rp)
             return False
         return True
     if orig['dt'] == 'b' and keep_dtype:
@@ -3229,7 +3295,9 @@ MANIFEST = {
             'configurations, numpy reshape vs the model; clause oracle on the real code with unit factors of compound '
             'unit expressions evaluated independently of uc.parse, uc.unit and numericalunits\' derived units (own table: SI '
             'value and dimension per name, base factors from the chosen working units) and an exact rational account of '
-            'object sessions.',
+            'object sessions. Counts: the array read back from a value list is decided by all its entries in any cut '
+            'into blocks (value_list_blocks_int / _tail_decides / _blocks_num / _blocks_str); long values (up to 131073 '
+            'stored numbers) and systems of 2^15 + 1 / 2^16 + 1 atoms go through tie and oracle on every run.',
     'note': 'Trusted: Lean kernel + propext/Classical.choice/Quot.sound; DataModelDict/xmltodict/json codecs (observed, '
             'not verified: JSON = identity on the tree, XML = xmlNorm); uc.parse factors are parameters (C09), supplied '
             'on each run by an evaluator that shares nothing with uc.parse; the Hill estimates behind '
